@@ -688,7 +688,8 @@ func (g *c02Gen) unarySites(op string, k *c02Kind, xs []c02V, ctxs []string) {
 			s.Call = fmt.Sprintf("s%d(x)", s.ID)
 			if ctx == "ifa" {
 				s.Call = fmt.Sprintf("w%d(x)", s.ID)
-				if op != "+" {
+				if op != "+" && pm != "pw" && pm != "pww" {
+					// q = (-x): the parenthesised expression takes the interface type, the unary node keeps its own: no defect
 					s.Region = "iface-assign"
 				}
 			}
@@ -1414,7 +1415,7 @@ func c02CoqCase(id int, s *c02Site, i int, impl, ref string) (kind, text string)
 		// the interface rows of neg / bitNot are unreachable (their kind switch inspects the interface type itself):
 		// `var r interface{} = -x` computes into a typed temporary
 		ck = fmt.Sprintf("(CUn %s FVar)", o)
-		if s.Ctx == "ifa" {
+		if s.Ctx == "ifa" && s.Paren != "pw" && s.Paren != "pww" {
 			ck = fmt.Sprintf("(CUnIfa %s)", o)
 		}
 	case "incdec":
